@@ -98,9 +98,9 @@ def check_object(acc, cls, o, path, seed_id, attribution=None):
     except core.Timeout:
         raise
     except Exception as e:  # noqa
-        acc.violation('compose_raises:%s:%s:%s' % (leak_site(e) or definer, type(e).__name__,
-                                                   kind_of(('compose_raises', leak_site(e), type(e).__name__))),
-                      'compose() of a constructible %s raises %s: %s' % (cls.__name__, type(e).__name__, str(e)[:80]),
+        acc.violation('compose_raises:%s:%s:%s' % (leak_site(e) or definer, core.ename(e),
+                                                   kind_of(('compose_raises', leak_site(e), core.ename(e)))),
+                      'compose() of a constructible %s raises %s: %s' % (cls.__name__, core.ename(e), str(e)[:80]),
                       w)
         return None
     if not isinstance(b, (bytes, bytearray)):
@@ -128,10 +128,10 @@ def check_object(acc, cls, o, path, seed_id, attribution=None):
                 # the parser says "another type's encoding": the varied enum field is a type discriminator
                 acc.count('out_of_domain_discriminator')
                 return b
-            acc.violation('parse_rejects:%s:%s:%s' % (definer, type(e).__name__,
-                                                      kind_of(('parse_rejects', definer, type(e).__name__))),
+            acc.violation('parse_rejects:%s:%s:%s' % (definer, core.ename(e),
+                                                      kind_of(('parse_rejects', definer, core.ename(e)))),
                           'composed bytes of a %s are rejected by its own parser: %s %s'
-                          % (cls.__name__, type(e).__name__, str(e)[:80]), w)
+                          % (cls.__name__, core.ename(e), str(e)[:80]), w)
             return b
     if n != len(b):
         acc.violation('not_all_consumed:%s:%s' % (definer, kind_of(('not_all_consumed', definer))),
@@ -156,7 +156,7 @@ def check_object(acc, cls, o, path, seed_id, attribution=None):
         raise
     except Exception as e:  # noqa
         if n == len(b):
-            acc.violation('exact_size_rejects:%s:%s' % (definer, type(e).__name__),
+            acc.violation('exact_size_rejects:%s:%s' % (definer, core.ename(e)),
                           'parse_exact_size rejects what parse_immutable accepted in full', w)
     return b
 
@@ -264,9 +264,9 @@ def _inplace_worker(args):
         try:
             bb = bytes(b.compose())
         except Exception as e:  # noqa
-            acc.violation('inplace_compose_raises:%s:%s:%s' % (compose_definer(b), holder, type(e).__name__),
+            acc.violation('inplace_compose_raises:%s:%s:%s' % (compose_definer(b), holder, core.ename(e)),
                           'after %s was assigned in place compose() of the %s raises %s although the same value '
-                          'built by construction composes' % (tag, cls.__name__, type(e).__name__), w)
+                          'built by construction composes' % (tag, cls.__name__, core.ename(e)), w)
             continue
         if bb != ba:
             acc.violation('inplace_differs:%s:%s' % (compose_definer(b), holder),
